@@ -10,9 +10,14 @@ pub const SEPS: &[&str] = &[
     " // selfdestruct(a); b >= c\n",
     " /* é\n */ ",
     " // keccak256(d) * 8 \r\n",
+    // a lone carriage return is white space for the lexer and ends a line comment, but it is not a line break
+    " \r ",
+    " // i++ \r ",
+    // a byte-order mark inside a comment (flattened files carry such banners)
+    " // File: \u{feff}contracts/C.sol\n",
 ];
 /// separators admitted inside a pragma directive (the lexer reads the value as raw text)
-pub const WS_SEPS: &[usize] = &[0, 1, 2, 3, 4];
+pub const WS_SEPS: &[usize] = &[0, 1, 2, 3, 4, 9];
 pub const ENDINGS: &[&str] = &["", "\n", "\r\n"];
 
 #[derive(Clone, Debug)]
@@ -34,8 +39,9 @@ pub fn pragma_gaps(toks: &[String]) -> Vec<bool> {
     let mut i = 0;
     while i < n {
         if toks[i] == "pragma" {
-            // gaps before name, value and `;`
-            for g in (i + 1)..=(i + 3).min(n) {
+            // gaps before the value and before `;` (the lexer reads the value as raw text); the gap between
+            // `pragma` and its name is ordinary
+            for g in (i + 2)..=(i + 3).min(n) {
                 v[g] = true;
             }
             i += 4;
@@ -137,7 +143,7 @@ pub fn single_deviations(n: usize) -> Vec<Layout> {
 /// axis to keep the space at ~ (n^2/2) * 8 * 4)
 pub fn double_deviations(n: usize) -> Vec<Layout> {
     let mut v = Vec::new();
-    let second = [1usize, 2, 6, 7];
+    let second = [1usize, 2, 6, 7, 10];
     for g1 in 0..=n {
         for g2 in (g1 + 1)..=n {
             for s1 in 1..SEPS.len() {
